@@ -70,8 +70,10 @@ SENSITIVITY = [
     "multiple conditions joined with ||",
     "XPowGate qasm: sxdg for exponent +0.5",
     "half_turns rounding to precision-1 digits",
-    "sympy condition constant off by one bit (rhs reversed)",
     "creg declared one bit larger than the measured key",
+    "sympy key==const: constant no longer bit-reversed (re-introduces F8)",
+    "classical control guards only the first statement (re-introduces C19A)",
+    "KeyCondition index accepted and ignored again (re-introduces C19F)",
 ]
 
 PRECISIONS = [3, 6, 10, 15]
@@ -830,7 +832,7 @@ SUBCHECKS = [
              essential={"direct": 0.2, "decomposed": 0.2, "controlled": 0.1}, examples=_EXAMPLES_GATE),
     SubCheck("unitary", _unitary_case(), oracle_unitary, quick=1600, thorough=60000, shards_quick=6, shards_thorough=16,
              essential={"needs_decomposition": 0.3, "version=3.0": 0.3, "version=2.0": 0.3}),
-    SubCheck("feedforward", _ff_case(), oracle_ff, quick=2400, thorough=90000, shards_quick=6, shards_thorough=16,
+    SubCheck("feedforward", _ff_case(), oracle_ff, quick=2400, thorough=90000, shards_quick=8, shards_thorough=16,
              essential={"classical_control": 0.2, "inverted_multi_measurement": 0.08, "needs_decomposition": 0.2,
                         "version=3.0": 0.25, "version=2.0": 0.25}, examples=_EXAMPLES_FF),
 ]
